@@ -303,6 +303,14 @@ theorem positionalOnly_in_table :
 one goes through `run` (the call form does not enter the model of the operation) -/
 theorem callForm_positional_always (n : String) : callFormAccepted n .positional = true := rfl
 
+/-- a foreign CRS object is identified by its own WKT whatever its (fuzzy) `to_epsg()` or
+`to_string()` say, and is refused without `to_wkt()`: a near-match EPSG code can never make
+two different systems compare equal at construction -/
+theorem foreign_identity_ignores_epsg (w e e' s s' : Bool) :
+    foreignIdentity w e s = foreignIdentity w e' s' ∧
+    (foreignIdentity true e s = .ok .wkt) ∧ (∃ err, foreignIdentity false e s = .error err) := by
+  cases w <;> simp [foreignIdentity]
+
 /-! ### bounding boxes with the real arithmetic -/
 
 theorem bboxUnion_mismatch (x0 : Obj BBox) (rest : List (Obj BBox))
